@@ -424,7 +424,7 @@ class Impl:
         e = val.value
         err = self.error
         for n, r in self.reasons.items():
-            if val is r:
+            if val is r or e is r.value:
                 return 'LOST %d' % n
         if isinstance(e, err.RemoteError):
             if 'values' in e.__dict__:
@@ -651,7 +651,7 @@ class Monitor:
                 c = im.calls[did]
                 if s == 'open' and c['er'] and not c.get('bad'):
                     def chk(k, v, did=did):
-                        if not (k == 'eb' and v is reason):
+                        if not (k == 'eb' and (v is reason or v.value is reason.value)):
                             self.bad('loss-reason', 'call %d: connection lost, delivered %s' % (did, _short(k, v)))
                     expected[did] = chk
             self.lost = True
@@ -846,7 +846,7 @@ def gen_exhaustive(ctx):
     elif ctx.widen:
         plan = [(1, 3, special, 1, 1, 1), (2, 2, special, 1, 2, 1), (3, 1, [], 2, 4, 1)]
     else:
-        plan = [(1, 3, special, 1, 1, 1), (2, 1, special, 1, 1, 1), (2, 2, special, 4, 8, 1), (3, 1, [], 6, 12, 1)]
+        plan = [(1, 3, special, 1, 1, 1), (2, 1, special, 1, 1, 1), (2, 2, special, 6, 12, 1), (3, 1, [], 8, 16, 1)]
     for n, maxlen, spec, kloss, kunsol, kbase in plan:
         off = rot.next(997)
         for i, a in enumerate(abstract_schedules(n, maxlen, spec)):
@@ -1173,7 +1173,7 @@ def run(ctx):
             if not process_batch(ctx, b):
                 return
         ctx.exhaustive = True
-        n = ctx.scale(quick=2000, thorough=15000)
+        n = ctx.scale(quick=1500, thorough=15000)
         for b in batches((gen_random(ctx.rng, 12) for _ in range(n)), 4000):
             if not process_batch(ctx, b):
                 return
